@@ -15,6 +15,11 @@ Definition q_ev_padd := peval_padd Q 0%Q 1%Q Qplus Qmult Qminus Qopp Qeq (fun x 
 Definition q_ev_pscale := peval_pscale Q 0%Q 1%Q Qplus Qmult Qminus Qopp Qeq (fun x => x) Q_Setoid Qreqe Qsrt Qidmorph.
 Definition q_ev_psubst := peval_psubst Q 0%Q 1%Q Qplus Qmult Qminus Qopp Qeq (fun x => x) Q_Setoid Qreqe Qsrt Qidmorph.
 
+(* tie of ElementHdiv.gbasis: the Piola scale is taken per cell AND per point (1/|det DF| at the same point as DF and phi),
+   and the value / div expressions are the ones translated into gen_hdiv_value, gen_hdiv_scale, gen_hdiv_div *)
+Lemma tie_hdiv_sites : gen_hdiv_scale_pointwise = true /\ gen_hdiv_sites_as_expected = true.
+Proof. split; reflexivity. Qed.
+
 (* the reference point G(x) is the affine image *)
 Lemma qimage_affine B c d x j :
   qimage B c d x j == c j + sumn Q 0%Q Qplus (fun k => B j k * x k) d.
